@@ -284,7 +284,7 @@ def rand_information(rng, n, kind=None, max_cond=1e4):
     return (m + m.T) / 2.0
 
 
-ID_SCHEMES = ["range", "range", "offset", "negative", "sparse", "huge"]
+ID_SCHEMES = ["range", "range", "offset", "negative", "sparse", "huge", "huge62"]
 
 
 def make_ids(rng, n, scheme=None):
@@ -298,8 +298,10 @@ def make_ids(rng, n, scheme=None):
         ids = rng.sample(range(-50, 50), n)
     elif scheme == "sparse":
         ids = rng.sample(range(0, 100000), n)
-    else:
+    elif scheme == "huge":
         ids = rng.sample(range(2**40, 2**40 + 10**6), n)
+    else:
+        ids = rng.sample(range(2**62, 2**62 + 10**6), n)  # not representable as doubles
     return ids, scheme
 
 
